@@ -1,31 +1,42 @@
 """Generic "process restarted, only the code survives" for html5lib.
 
 Right after html5lib has been imported (and before any operation runs) the
-contents of every piece of process-wide mutable state the library owns are
-recorded:
+process-wide state the library owns is recorded at two levels:
 
-  * module-level dict / list / set / bytearray objects of every html5lib module,
-  * mutable containers held in closure cells of module-level functions
-    (the moduleFactoryFactory caches),
-  * mutable class attributes of classes defined in html5lib,
-  * the instance __dict__ of module-level instances of html5lib classes
-    (e.g. the entities trie and its prefix cache),
-  * functools.lru_cache-style wrappers (cleared through cache_clear()).
+  NAMESPACES (which name is bound to which object)
+    * the globals of every html5lib module,
+    * the attributes of every class defined in html5lib,
+    * the attribute dictionaries of every function / method defined in
+      html5lib (memos kept "on the function"),
+    * the attribute dictionaries of module-level and class-level instances of
+      library classes and of container subclasses (e.g. the MethodDispatcher
+      tables, the entities trie);
+  CONTENTS (what a mutable container holds)
+    * every dict / list / set / bytearray / deque reachable as a module global,
+      class attribute, closure cell, default argument or attribute of one of
+      the instances above.
 
-restore() puts all of them back to their import-time contents *in place*.
-Because it is derived from the modules rather than from a list of known
-caches, a cache or memo added anywhere in the library is reset as well -
-which is what makes failures caused by such a cache reproducible from a
-defined state.
+restore() puts all of it back *in place*: names that were added are removed,
+names that were rebound point to their import-time objects again, containers
+get their import-time contents.  Because this is derived from the modules
+rather than from a list of known caches, state added anywhere by a change to
+the library is reset as well - which is what makes failures it causes
+reproducible from a defined state.  restore() also reports what it had to
+undo; the thread scheduler uses that to learn which code touches shared state.
 """
 from __future__ import annotations
 
+import collections
 import re
 import sys
 import types
 
-_MUTABLE = (dict, list, set, bytearray)
-_snap = {"taken": False, "containers": [], "instances": [], "clearers": []}
+_MUTABLE = (dict, list, set, bytearray, collections.deque)
+_SCALARS = (type, types.ModuleType, types.FunctionType, types.BuiltinFunctionType, types.MethodType, str, bytes, int, float,
+            complex, tuple, frozenset, bool, type(None), property, staticmethod, classmethod)
+_snap = {"taken": False, "containers": [], "namespaces": [], "clearers": []}
+_learned = {"codes": set(), "names": set()}
+_MISSING = object()
 
 
 def _is_lib_module(name):
@@ -39,6 +50,8 @@ def _copy(obj):
         return list(obj)
     if isinstance(obj, set):
         return set(obj)
+    if isinstance(obj, collections.deque):
+        return list(obj)
     return bytearray(obj)
 
 
@@ -46,109 +59,162 @@ def snapshot():
     if _snap["taken"]:
         return
     seen = set()
-    containers = []
-    instances = []
+    containers = []      # (container object, copy of its contents)
+    namespaces = []      # (kind, owner, saved {name: object}, label)
     clearers = []
 
     def add_container(obj):
         if isinstance(obj, _MUTABLE) and id(obj) not in seen:
             seen.add(id(obj))
             containers.append((obj, _copy(obj)))
-            # a container subclass (e.g. the MethodDispatcher tables that are class
-            # attributes of every phase) may carry attributes of its own
             d = getattr(obj, "__dict__", None)
             if isinstance(d, dict):
-                instances.append((obj, dict(d)))
+                add_namespace("instance", obj, d, type(obj).__name__)
 
-    def add_function(f):
+    def add_namespace(kind, owner, d, label):
+        key = ("ns", id(owner))
+        if key in seen:
+            return
+        seen.add(key)
+        namespaces.append((kind, owner, dict(d), label))
+        for v in list(d.values()):
+            add_container(v)
+
+    def add_function(f, label):
+        add_namespace("function", f, f.__dict__, label)
         for cell in (f.__closure__ or ()):
             try:
                 add_container(cell.cell_contents)
             except ValueError:
                 pass
-        # mutable default arguments are process-wide objects too
-        for d in list(f.__defaults__ or ()) + list((f.__kwdefaults__ or {}).values()):
-            add_container(d)
+        for dflt in list(f.__defaults__ or ()) + list((f.__kwdefaults__ or {}).values()):
+            add_container(dflt)
+        if hasattr(f, "cache_clear"):
+            clearers.append(f.cache_clear)
 
-    def add_instance(v):
-        if id(v) in seen or not hasattr(v, "__dict__"):
+    def add_value(v, label):
+        """A value bound at module or class level."""
+        add_container(v)
+        f = getattr(v, "__func__", v)
+        if isinstance(f, types.FunctionType):
+            if getattr(f, "__module__", "").startswith("html5lib"):
+                add_function(f, label)
             return
-        seen.add(id(v))
-        d = vars(v)
-        for av in list(d.values()):
-            add_container(av)
-        instances.append((v, dict(d)))
+        if isinstance(v, property):
+            for g in (v.fget, v.fset, v.fdel):
+                if isinstance(g, types.FunctionType) and getattr(g, "__module__", "").startswith("html5lib"):
+                    add_function(g, label)
+            return
+        if hasattr(v, "cache_clear") and callable(getattr(v, "cache_clear", None)):
+            clearers.append(v.cache_clear)
+        if (not isinstance(v, _SCALARS + _MUTABLE) and type(v).__module__.startswith("html5lib")
+                and isinstance(getattr(v, "__dict__", None), dict)):
+            add_namespace("instance", v, vars(v), label)
 
     for mname, mod in list(sys.modules.items()):
         if mod is None or not _is_lib_module(mname):
             continue
+        add_namespace("module", mod, {k: v for k, v in vars(mod).items() if not k.startswith("__")}, mname)
         for name, v in list(vars(mod).items()):
             if name.startswith("__"):
                 continue
-            add_container(v)
-            if isinstance(v, types.FunctionType):
-                add_function(v)
-            if hasattr(v, "cache_clear") and callable(getattr(v, "cache_clear", None)):
-                clearers.append(v.cache_clear)
-            if isinstance(v, type) and getattr(v, "__module__", "").startswith("html5lib"):
-                for a, av in list(vars(v).items()):
-                    fobj = getattr(av, "__func__", av)
-                    if isinstance(fobj, types.FunctionType):
-                        add_function(fobj)
-                    if not a.startswith("__"):
-                        add_container(av)
-                        if (not isinstance(av, (type, types.FunctionType, types.BuiltinFunctionType, property, staticmethod,
-                                                classmethod, str, bytes, int, float, tuple, frozenset, bool, type(None)) + _MUTABLE)
-                                and type(av).__module__.startswith("html5lib")):
-                            add_instance(av)
-                    fn = av
-                    if hasattr(fn, "cache_clear") and callable(getattr(fn, "cache_clear", None)):
-                        clearers.append(fn.cache_clear)
-            elif (not isinstance(v, (type, types.ModuleType, types.FunctionType, types.BuiltinFunctionType, str, bytes, int,
-                                     float, tuple, frozenset, bool, type(None)) + _MUTABLE)
-                  and type(v).__module__.startswith("html5lib") and hasattr(v, "__dict__") and id(v) not in seen):
-                seen.add(id(v))
-                d = vars(v)
-                # mutable containers held by the instance are restored in place,
-                # scalar attributes by value
-                for av in d.values():
-                    add_container(av)
-                instances.append((v, dict(d)))
-    _snap.update(taken=True, containers=containers, instances=instances, clearers=clearers)
+            if isinstance(v, type):
+                if getattr(v, "__module__", "") == mname:
+                    add_namespace("class", v, {k: av for k, av in vars(v).items() if not k.startswith("__")},
+                                  mname + "." + v.__qualname__)
+                    for a, av in list(vars(v).items()):
+                        if not (a.startswith("__") and a.endswith("__")) or isinstance(getattr(av, "__func__", av),
+                                                                                      types.FunctionType):
+                            add_value(av, mname + "." + v.__qualname__ + "." + a)
+                continue
+            add_value(v, mname + "." + name)
+    _snap.update(taken=True, containers=containers, namespaces=namespaces, clearers=clearers)
 
 
 def restore():
+    """Back to the import-time state; returns a list of what had to be undone."""
     if not _snap["taken"]:
         snapshot()
+    undone = []
     for obj, saved in _snap["containers"]:
+        if isinstance(obj, collections.deque):
+            if list(obj) != saved:
+                undone.append(("contents", "deque"))
+                obj.clear()
+                obj.extend(saved)
+            continue
         if obj != saved:
+            undone.append(("contents", type(obj).__name__))
             if isinstance(obj, dict):
                 obj.clear()
                 obj.update(saved)
-            elif isinstance(obj, list):
-                obj[:] = saved
             elif isinstance(obj, set):
                 obj.clear()
                 obj.update(saved)
             else:
                 obj[:] = saved
-    for inst, saved in _snap["instances"]:
-        d = vars(inst)
-        for k in list(d):
+    for kind, owner, saved, label in _snap["namespaces"]:
+        if kind in ("module", "class"):
+            cur = {k: v for k, v in vars(owner).items() if not k.startswith("__")}
+        else:
+            cur = dict(getattr(owner, "__dict__", {}))
+        if len(cur) == len(saved) and all(cur.get(k, _MISSING) is v for k, v in saved.items()):
+            continue
+        for k in cur:
             if k not in saved:
-                del d[k]
+                undone.append(("added", label, k))
+                _learn(kind, owner, k)
+                try:
+                    if kind in ("module", "class"):
+                        delattr(owner, k)
+                    else:
+                        del owner.__dict__[k]
+                except Exception:
+                    pass
         for k, v in saved.items():
-            if d.get(k, None) is not v and not isinstance(v, _MUTABLE):
-                d[k] = v
-            elif k not in d:
-                d[k] = v
+            if cur.get(k, _MISSING) is not v:
+                undone.append(("rebound", label, k))
+                _learn(kind, owner, k)
+                try:
+                    if kind in ("module", "class"):
+                        setattr(owner, k, v)
+                    else:
+                        owner.__dict__[k] = v
+                except Exception:
+                    pass
     for fn in _snap["clearers"]:
         try:
             fn()
         except Exception:
             pass
     re.purge()
+    return undone
+
+
+def accept_current(owner):
+    """The harness itself changed this namespace on purpose (its observe-only wrappers): make the current bindings the
+    reference."""
+    for i, (kind, o, saved, label) in enumerate(_snap["namespaces"]):
+        if o is owner:
+            if kind in ("module", "class"):
+                cur = {k: v for k, v in vars(owner).items() if not k.startswith("__")}
+            else:
+                cur = dict(getattr(owner, "__dict__", {}))
+            _snap["namespaces"][i] = (kind, o, cur, label)
+
+
+def _learn(kind, owner, name):
+    """Remember where shared state turned out to live (for the scheduler)."""
+    if kind == "function":
+        code = getattr(owner, "__code__", None)
+        if code is not None:
+            _learned["codes"].add(code)
+    _learned["names"].add(name)
+
+
+def learned():
+    return _learned
 
 
 def stats():
-    return {"containers": len(_snap["containers"]), "instances": len(_snap["instances"]), "clearers": len(_snap["clearers"])}
+    return {"containers": len(_snap["containers"]), "namespaces": len(_snap["namespaces"]), "clearers": len(_snap["clearers"])}
